@@ -12,7 +12,7 @@ META = {
     'text': 'Decides on every abstract path: the client closes the transport\'s write side only in a state where both the request queue and the cancellation queue have returned '
             'Ready(None) (closed and drained — tokio delivers queued items first); the dispatch completes with Ok only if the read side ended or (the write side was closed and the in-flight '
             'table is empty); the server channel\'s stream ends only if, in that iteration, the transport read returned Ready(None) and the deadline source is exhausted; the request stream '
-            'ends only after the inbound side ended, the last flush completed and (nothing is in flight or the response queue is closed); and no removal from the server\'s in-flight table leaves its deadline timer armed, so the deadline source the channel waits for is exhausted as soon as nothing is in flight. The client dispatch goes idle only with its two queues and the transport read registered (C10.drain, C10.read), so queued work and the peer\'s close are noticed without other traffic. NOT decided: promptness as a time bound.',
+            'ends only after the inbound side ended, the last flush completed and (nothing is in flight or the response queue is closed); and no removal from the server\'s in-flight table leaves its deadline timer armed, so the deadline source the channel waits for is exhausted as soon as nothing is in flight. A cancellation id taken from the queue whose entry was removed is written in the same activation (C10.owed), so it cannot be missing when the write side is closed. The client dispatch goes idle only with its two queues and the transport read registered (C10.drain, C10.read), so queued work and the peer\'s close are noticed without other traffic. NOT decided: promptness as a time bound.',
     'note': 'Trusted: tokio mpsc returns Ready(None) only when closed and drained; Fuse. Unknown callees are forked over all result shapes.',
 }
 
@@ -152,6 +152,10 @@ def run(ctx):
     from .wake import source_jobs, pending_states, source_ok
     poll_, reach_, wjobs = source_jobs(F, P, ('Q', 'K', 'R'))
     wres = run_jobs(F, wjobs)
+    # "transmits every queued ... cancellation, then closes": an id taken from the cancellation queue whose entry was removed is written in the same activation — it
+    # cannot be dropped at a Pending return and then be missing when the write side is closed (the C03.owed exploration)
+    from .C03 import owed_rule
+    owed_rule(ctx, 'C10.owed', poll)
     # (8) "when the peer ends the read side the dispatch stops promptly": the transport's read half is registered on every idle return (also while nothing is in
     # flight — end-of-stream arrives on it), except in the final drain after the write side closed
     keys_r = pending_states(wres['R'])
